@@ -1,3 +1,5 @@
+(* NOTE: the FOLLOW-UP section at the end of this file closes the function targets (the bullet on RT_at KFunction below is
+   superseded there) and adds the install phase. *)
 (* C09Ext -- additions to props/C09.v (to be merged by the integrator): the last step of the property's own wording.
    props/C09.v proves that after a successful fault-free run every target is `stable` (found at its location and equal,
    to cmp, to the re-emission of the truth).  Here the emit / parse / compare layers are INSTANTIATED
@@ -259,3 +261,196 @@ Theorem C09_function_target_point :
   end.
 Proof. exact function_target_point. Qed.
 Print Assumptions C09_function_target_point.
+
+(* ================================================================== *)
+(* FOLLOW-UP: function targets, and the install phase                   *)
+(* ================================================================== *)
+(* Function targets are CLOSED: the premise RT_at KFunction of C09_interface_agreement is discharged, by composing
+   C19_function_any_name (C03_partial for an arbitrary identifier as function name) with the docstring link of C03Ext
+   (C03_doc_link) and reading the docstring from the node.  The options conformance passes for functions are INSIDE
+   the proved region of C03: function_name = last component of the search path (must be an identifier),
+   function_type = get_function_type(found node) in {static, self, cls} (a missing node gives None, i.e. the type of
+   the truth IR -- but stability is always judged against the re-emission at the FOUND node's type), and the defaults
+   word_wrap=True, emit_default_doc=False, indent_level=2, emit_separating_tab=True, inline_types=True,
+   emit_as_kwonlyargs=True (C09Instance.sync_fopts); none of them blocks (emit_default_doc on, a C03 finding class, is
+   not what conformance passes).
+   guard_C09_function w pt i name ft = is_identifier name && guard_C03 (sync_fopts pt ft) i
+     && C03DocLinkDefs.doc_link_ok w (sync_fopts pt ft) i      (guard and side condition of C03_partial_closed)
+     && fn_text_unquoted w pt ft i    (set_value leaves the docstring text alone: a limit of the proof -- the text of
+                                       to_docstring starts with a line break, not proved here; executable)
+     && fn_reparse_fixed w pt i name ft   (the emitted FunctionDef is a fixed point of ast.parse(ast.unparse(.)), i.e.
+                                       no negative number default: C03 proves the round trip THROUGH reparse_stmt, the
+                                       cmp_ast(found, emitted) disjunct needs the parse of the emitted node itself.  A
+                                       limit of the proof, not of the code: C09_function_negative_default_point.
+                                       C09_stable_function_target_canon does without it, from two parse-transparency
+                                       premises WRITTEN_REPARSE_law / EMITTED_REPARSE_law);
+   guard_C09_function_found = the above for the three function types a found node can have.
+   The relation proved is C03Spec.same_interface_fn (names by lookup, strict defaults, kind), which implies
+   C02Spec.same_interface (positional) because guard_C03 gives distinct names.
+   What remains abstract for function targets: FIX_law; WRITTEN_PARSE_law KFunction; REPLACES_law -- which is FALSE of
+   the Locate rewriter on FunctionDef targets (props/C09.v C09_REPLACES_refuted, C09_function_nodes_never_replaced), so
+   C09_function_targets_agree is conditional on a rewriter that replaces, and the honest result over the Locate
+   rewriter is C09_function_targets_settle_install (FIX alone): every function target agrees, or is a found
+   definition that differs and that the rewriter declined (the recorded finding found-definition-not-replaced); and a
+   function target INSTALLED by the run (its file was missing, or parsed -- empty file included -- with nothing found
+   at the location, so the definition is created / appended) agrees in full.  The install-phase statement holds for
+   every kind (C09_interface_agreement_install). *)
+From DT Require C06Spec C03Spec C03DocLinkDefs.
+
+(* emit.function -> ast.unparse -> ast.parse -> parse.function at the node, docstring read from the node *)
+Theorem C09_function_round_trip_canon : forall (w : nat) (pt : ptable) (i : ir) (name ft : str),
+    guard_C09_function_core w pt i name ft = true ->
+    exists n n' i',
+      emit_function_inst w pt i name (Some ft) = Ok n
+      /\ C03Spec.reparse_stmt n = Ok n'
+      /\ parse_function_node n' = Ok i'
+      /\ C03Spec.same_interface_fn ft i i' = true
+      /\ same_interface i i' = true.
+Proof. exact function_round_trip_canon. Qed.
+Print Assumptions C09_function_round_trip_canon.
+
+(* the round trip at the emitted node itself: emit_inst for KFunction then parse_node_inst *)
+Theorem C09_function_round_trip_node : forall (w : nat) (pt : ptable) (i : ir) (name ft : str),
+    guard_C09_function w pt i name ft = true ->
+    exists n i',
+      emit_function_inst w pt i name (Some ft) = Ok n
+      /\ parse_function_node n = Ok i'
+      /\ C03Spec.same_interface_fn ft i i' = true
+      /\ same_interface i i' = true.
+Proof. exact function_round_trip_node. Qed.
+Print Assumptions C09_function_round_trip_node.
+
+(* hence the premise RT_at of C09_interface_agreement / _settled holds for function targets *)
+Theorem C09_RT_at_function : forall (w : nat) (pt : ptable) (it ww : bool) (search : list str) (i : ir),
+    guard_C09_function_found w pt i (last search (default_name KFunction)) = true ->
+    RT_at w pt it ww KFunction search i.
+Proof. exact RT_at_function. Qed.
+Print Assumptions C09_RT_at_function.
+
+(* without the fixed-point clause, from two parse-transparency premises *)
+Theorem C09_stable_function_target_canon :
+    forall (tree : Type) (parse_file : path -> bytes -> outcome tree) (find : list str -> tree -> option stmt)
+      (as_written : stmt -> stmt) (w : nat) (pt : ptable) (it ww : bool) (fs : fsys) (file : path)
+      (search : list str) (i : ir),
+    WRITTEN_REPARSE_law as_written w pt -> EMITTED_REPARSE_law w pt ->
+    guard_C09_function_found_core w pt i (last search (default_name KFunction)) = true ->
+    stable stmt tree ir sync_opts (emit_inst w pt) parse_file find (cmp_inst as_written) opts_inst type_ok_inst
+           fs file search KFunction i ->
+    agrees_at tree parse_file find it ww fs file search KFunction i.
+Proof. exact stable_function_target_canon. Qed.
+Print Assumptions C09_stable_function_target_canon.
+
+(* one call in the install phase: under FIX the result is stable (never the declined outcome) *)
+Theorem C09_conform_install_stable :
+    forall (tree : Type) (parse_file : path -> bytes -> outcome tree) (find : list str -> tree -> option stmt)
+      (as_written : stmt -> stmt) (w : nat) (pt : ptable)
+      (rewrite : list str -> stmt -> tree -> tree * bool)
+      (render_node : stmt -> outcome bytes) (render_tree : tree -> outcome bytes),
+    FIX_law stmt tree ir sync_opts (emit_inst w pt) parse_file find rewrite (cmp_inst as_written) render_node
+            render_tree opts_inst type_ok_inst ->
+    forall (fs : fsys) (file : path) (search : list str) (k : kind) (i : ir) (fs' : fsys) (b : bool) (pr : list str),
+    search <> [] -> install_pre_c tree parse_file find (fs_get file fs) file search ->
+    conform (emit_inst w pt) parse_file find rewrite (cmp_inst as_written) render_node render_tree opts_inst
+            type_ok_inst fs file search k i NoFault = (fs', Ok b, pr) ->
+    stable stmt tree ir sync_opts (emit_inst w pt) parse_file find (cmp_inst as_written) opts_inst type_ok_inst
+           fs' file search k i.
+Proof. exact conform_install_stable. Qed.
+Print Assumptions C09_conform_install_stable.
+
+(* the run, any kind, from FIX alone: every target agrees or was declined, and a target installed by the run agrees *)
+Theorem C09_interface_agreement_install :
+    forall (tree : Type) (parse_file : path -> bytes -> outcome tree) (find : list str -> tree -> option stmt)
+      (as_written : stmt -> stmt) (w : nat) (pt : ptable) (it ww : bool)
+      (rewrite : list str -> stmt -> tree -> tree * bool)
+      (render_node : stmt -> outcome bytes) (render_tree : tree -> outcome bytes)
+      (parse_truth : kind -> option stmt -> list str -> outcome ir),
+    FIX_law stmt tree ir sync_opts (emit_inst w pt) parse_file find rewrite (cmp_inst as_written) render_node
+            render_tree opts_inst type_ok_inst ->
+    forall (fs : fsys) (a : sync_args) (truth : path) (fs1 : fsys) (eff : list (path * bool)) (pr : list str),
+    sync_args_ok a truth ->
+    ground_truth (emit_inst w pt) parse_file find rewrite (cmp_inst as_written) render_node render_tree opts_inst
+                 type_ok_inst parse_truth fs a truth NoFaults = (fs1, Ok eff, pr) ->
+    exists i : ir,
+      truth_ir stmt tree ir parse_file find parse_truth fs1 a truth = Ok i
+      /\ forall k : kind,
+          WRITTEN_PARSE_law as_written w pt it ww k ->
+          (forall nm, name_of a k = Ok nm -> RT_at w pt it ww k (strip_split [ch 46] nm) i) ->
+          targets_settle_install tree parse_file find as_written w pt it ww rewrite fs fs1 a truth k i.
+Proof. exact interface_agreement_install. Qed.
+Print Assumptions C09_interface_agreement_install.
+
+(* function targets, from FIX alone *)
+Theorem C09_function_targets_settle_install :
+    forall (tree : Type) (parse_file : path -> bytes -> outcome tree) (find : list str -> tree -> option stmt)
+      (as_written : stmt -> stmt) (w : nat) (pt : ptable) (it ww : bool)
+      (rewrite : list str -> stmt -> tree -> tree * bool)
+      (render_node : stmt -> outcome bytes) (render_tree : tree -> outcome bytes)
+      (parse_truth : kind -> option stmt -> list str -> outcome ir),
+    FIX_law stmt tree ir sync_opts (emit_inst w pt) parse_file find rewrite (cmp_inst as_written) render_node
+            render_tree opts_inst type_ok_inst ->
+    forall (fs : fsys) (a : sync_args) (truth : path) (fs1 : fsys) (eff : list (path * bool)) (pr : list str),
+    sync_args_ok a truth ->
+    ground_truth (emit_inst w pt) parse_file find rewrite (cmp_inst as_written) render_node render_tree opts_inst
+                 type_ok_inst parse_truth fs a truth NoFaults = (fs1, Ok eff, pr) ->
+    exists i : ir,
+      truth_ir stmt tree ir parse_file find parse_truth fs1 a truth = Ok i
+      /\ (WRITTEN_PARSE_law as_written w pt it ww KFunction -> function_guard_args w pt a i ->
+          targets_settle_install tree parse_file find as_written w pt it ww rewrite fs fs1 a truth KFunction i).
+Proof. exact function_targets_settle_install. Qed.
+Print Assumptions C09_function_targets_settle_install.
+
+(* function targets, under FIX and REPLACES (for a rewriter that replaces FunctionDef nodes; the Locate one does not) *)
+Theorem C09_function_targets_agree :
+    forall (tree : Type) (parse_file : path -> bytes -> outcome tree) (find : list str -> tree -> option stmt)
+      (as_written : stmt -> stmt) (w : nat) (pt : ptable) (it ww : bool)
+      (rewrite : list str -> stmt -> tree -> tree * bool)
+      (render_node : stmt -> outcome bytes) (render_tree : tree -> outcome bytes)
+      (parse_truth : kind -> option stmt -> list str -> outcome ir),
+    FIX_law stmt tree ir sync_opts (emit_inst w pt) parse_file find rewrite (cmp_inst as_written) render_node
+            render_tree opts_inst type_ok_inst ->
+    REPLACES_law stmt tree find rewrite ->
+    forall (fs : fsys) (a : sync_args) (truth : path) (fs1 : fsys) (eff : list (path * bool)) (pr : list str),
+    sync_args_ok a truth ->
+    ground_truth (emit_inst w pt) parse_file find rewrite (cmp_inst as_written) render_node render_tree opts_inst
+                 type_ok_inst parse_truth fs a truth NoFaults = (fs1, Ok eff, pr) ->
+    exists i : ir,
+      truth_ir stmt tree ir parse_file find parse_truth fs1 a truth = Ok i
+      /\ (WRITTEN_PARSE_law as_written w pt it ww KFunction -> function_guard_args w pt a i ->
+          targets_agree tree parse_file find it ww fs1 a truth KFunction i).
+Proof. exact function_targets_agree. Qed.
+Print Assumptions C09_function_targets_agree.
+
+(* non-vacuity: the truth ir9 and the function target train -- inside the guard for every function type; stable on a
+   toy tree layer whose rewriter never replaces, hence agreeing, with what parse.function reads; and the install phase
+   on that layer: conform creates the missing file / appends to the empty one *)
+Theorem C09_function_target_example :
+  guard_C09_function_found 100 [] ir9 (L "train") = true
+  /\ agrees_at (list stmt) Toy9f.parse_file Toy9f.find false true Toy9f.fs (L "target.py") [L "train"] KFunction ir9
+  /\ (exists i', parse_node_inst false true KFunction node9f = Ok i'
+                 /\ map fst (ir_params i') = [L "epochs"; L "name"; L "rate"]
+                 /\ map (fun kv => g_default (snd kv)) (ir_params i')
+                    = [Some (DV (VInt 5)); Some (DV (VStr (L "mnist"))); Some (DV (VFloat (L "0.5")))]
+                 /\ C03Spec.same_interface_fn (L "static") ir9 i' = true)
+  /\ Toy9f.conf [] = (Toy9f.fs, Ok true, [])
+  /\ (exists fs', Toy9f.conf [(L "target.py", [])] = (fs', Ok true, [])
+                  /\ fs_get (L "target.py") fs' = Some (L "F9")).
+Proof. exact function_target_example. Qed.
+Print Assumptions C09_function_target_example.
+
+(* fn_reparse_fixed is a limit of the proof: a negative default is outside it, inside the core guard, and the parser
+   reads the same interface from the emitted node and from its re-parse *)
+Theorem C09_function_negative_default_point :
+  guard_C09_function_core 100 [] ir9_neg (L "train") (L "static") = true
+  /\ fn_reparse_fixed 100 [] ir9_neg (L "train") (L "static") = false
+  /\ match emit_function_inst 100 [] ir9_neg (L "train") (Some (L "static")) with
+     | Ok n => match C03Spec.reparse_stmt n with
+               | Ok n' => match parse_function_node n, parse_function_node n' with
+                          | Ok a, Ok b => same_interface ir9_neg a = true /\ same_interface ir9_neg b = true
+                          | _, _ => False
+                          end
+               | Err _ => False
+               end
+     | Err _ => False
+     end.
+Proof. exact function_negative_default_point. Qed.
+Print Assumptions C09_function_negative_default_point.
